@@ -118,3 +118,62 @@ pub fn c02_failed_push_leaves_message_unchanged_bounded() {
 
 // A build-then-parse round trip harness (question + two A records through StaticCompressor<Array<80>>, parsed back with
 // Message) did not terminate in CBMC within 25 min and was removed; the sequence-level round trip is not under contract.
+
+/// A target that "appends" without copying: its length jumps by an amount armed from outside, so the stream
+/// target's length arithmetic is exercised at every message length, including the 65535/65536 edge, without
+/// symbolic 64 KiB writes.
+pub struct JumpTarget {
+    buf: [u8; 65600],
+    len: usize,
+    jump: core::cell::Cell<usize>,
+}
+impl AsRef<[u8]> for JumpTarget {
+    fn as_ref(&self) -> &[u8] {
+        &self.buf[..self.len]
+    }
+}
+impl AsMut<[u8]> for JumpTarget {
+    fn as_mut(&mut self) -> &mut [u8] {
+        &mut self.buf[..self.len]
+    }
+}
+impl OctetsBuilder for JumpTarget {
+    type AppendError = core::convert::Infallible;
+    fn append_slice(&mut self, slice: &[u8]) -> Result<(), Self::AppendError> {
+        self.len += slice.len() + self.jump.get();
+        self.jump.set(0);
+        Ok(())
+    }
+}
+impl Truncate for JumpTarget {
+    fn truncate(&mut self, len: usize) {
+        if len < self.len {
+            self.len = len;
+        }
+    }
+}
+impl domain::base::wire::Composer for JumpTarget {}
+
+/// stream target: an append is refused (ShortBuf) exactly when the message would exceed 65535 octets, and after
+/// every accepted append the prefix equals the message length -- every resulting message length up to 65590
+#[kani::proof]
+#[kani::unwind(4)]
+pub fn c02_stream_target_length_limit() {
+    let jump: usize = kani::any();
+    kani::assume(jump <= 65590);
+    let t = JumpTarget { buf: [0; 65600], len: 0, jump: core::cell::Cell::new(0) };
+    let mut st = StreamTarget::new(t).unwrap();
+    assert!(st.as_dgram_slice().len() == 0);
+    st.as_target().jump.set(jump);
+    // this append grows the message to 1 + jump octets
+    let r = st.append_slice(&[0u8]);
+    let msg_len = st.as_dgram_slice().len();
+    kani::cover!(msg_len == 65535 && r.is_ok());
+    kani::cover!(msg_len == 65536);
+    assert!(msg_len == 1 + jump);
+    assert!(r.is_ok() == (msg_len <= 65535));
+    let s = st.as_stream_slice();
+    if r.is_ok() {
+        assert!(u16::from_be_bytes([s[0], s[1]]) as usize == msg_len);
+    }
+}
